@@ -28,7 +28,8 @@ type StartCursor struct {
 type Case struct {
 	Kind  string        `json:"kind"` // "seq": consecutive picks; "conc": G goroutines x M picks
 	Setup []lib.Op      `json:"setup"`
-	Picks []int         `json:"picks"` // seq: the policy of each pick; conc: goroutine i uses Picks[i % len]
+	Picks []int         `json:"picks"` // seq: the policy of each pick, or -1-v: a Sync that leaves the servers as they are (variant v, see resyncOp); conc: goroutine i uses Picks[i % len]
+	Resync bool         `json:"resync"` // conc: one more goroutine keeps issuing such Syncs while the pickers run
 	Reuse bool          `json:"reuse"` // one picker per policy (seq) / per goroutine (conc) instead of MatchAttributes per pick
 	Start []StartCursor `json:"start"` // cursor values installed before the picks (for every order of the policy's ready set)
 	G     int           `json:"g"`
@@ -81,6 +82,29 @@ func permutations(l []*clusters.EndpointInfo) [][]*clusters.EndpointInfo {
 	return res
 }
 
+// resyncOp is a Sync that leaves the server list as it is (same endpoint names, same disabled marks) while something else
+// differs: v%ExtraKinds picks the unrelated field (logging, logMode, flow control, annotation, client QPS, nothing),
+// (v/ExtraKinds)%3 the shape of the list (same / reversed / first entry listed twice).
+func resyncOp(first lib.Op, v int) lib.Op {
+	op := first
+	op.Extra = v % lib.ExtraKinds
+	sv := append([]lib.Server{}, first.Servers...)
+	switch (v / lib.ExtraKinds) % 3 {
+	case 1:
+		for i, j := 0, len(sv)-1; i < j; i, j = i+1, j-1 {
+			sv[i], sv[j] = sv[j], sv[i]
+		}
+	case 2:
+		if len(sv) > 0 {
+			sv = append(sv, sv[0])
+		}
+	}
+	op.Servers = sv
+	return op
+}
+
+const resyncVariants = lib.ExtraKinds * 3
+
 func readable(cs Case) string {
 	var b strings.Builder
 	for _, op := range cs.Setup {
@@ -113,9 +137,17 @@ func readable(cs Case) string {
 		}
 	}
 	if cs.Kind == "conc" {
-		fmt.Fprintf(&b, "%d goroutines x %d picks, policies %v, reuse=%v, start=%v", cs.G, cs.M, cs.Picks, cs.Reuse, cs.Start)
+		fmt.Fprintf(&b, "%d goroutines x %d picks, policies %v, reuse=%v, start=%v, concurrent unchanged-server Syncs=%v", cs.G, cs.M, cs.Picks, cs.Reuse, cs.Start, cs.Resync)
 	} else {
-		fmt.Fprintf(&b, "%d consecutive picks, policies %v, reuse=%v, start=%v", len(cs.Picks), compress(cs.Picks), cs.Reuse, cs.Start)
+		np, ns := 0, 0
+		for _, p := range cs.Picks {
+			if p < 0 {
+				ns++
+			} else {
+				np++
+			}
+		}
+		fmt.Fprintf(&b, "%d consecutive picks with %d unchanged-server Syncs in between (negative entries), policies %v, reuse=%v, start=%v", np, ns, compress(cs.Picks), cs.Reuse, cs.Start)
 	}
 	return b.String()
 }
@@ -178,6 +210,8 @@ func runCase(c *rig.Ctx, cs Case, record bool, inf *info) bool {
 	}
 	// the picks
 	var uss [][]string
+	events := []interface{}{} // the window as the model sees it: picks and Syncs in order
+	syncErr := ""
 	var outs []*lib.OutJ
 	pick := func(p clusters.EndpointPicker) ([]string, *lib.OutJ) {
 		return rig.HexList(clusters.VerifPickerUpstreams(p)), w.PopPicker(p)
@@ -224,9 +258,36 @@ func runCase(c *rig.Ctx, cs Case, record bool, inf *info) bool {
 				}
 			}(g)
 		}
+		stopResync := make(chan struct{})
+		resyncDone := make(chan struct{})
+		go func() {
+			defer close(resyncDone)
+			if !cs.Resync {
+				return
+			}
+			<-startGate
+			for v := 0; ; v++ {
+				select {
+				case <-stopResync:
+					return
+				default:
+				}
+				op := resyncOp(cs.Setup[0], v%resyncVariants)
+				if _, panicked := rig.Recover(func() {
+					if err := w.SyncX(op.Servers, op.Policies, op.Extra); err != nil {
+						pmu.Lock()
+						syncErr = err.Error()
+						pmu.Unlock()
+					}
+				}); panicked {
+					return
+				}
+				time.Sleep(20 * time.Microsecond)
+			}
+		}()
 		close(startGate)
 		done := make(chan struct{})
-		go func() { wg.Wait(); close(done) }()
+		go func() { wg.Wait(); close(stopResync); <-resyncDone; close(done) }()
 		select {
 		case <-done:
 		case <-time.After(120 * time.Second):
@@ -235,11 +296,24 @@ func runCase(c *rig.Ctx, cs Case, record bool, inf *info) bool {
 		for _, r := range results {
 			uss = append(uss, r.us...)
 			outs = append(outs, r.out...)
+			for _, us := range r.us {
+				events = append(events, us)
+			}
 		}
 	} else {
 		msg, panicked := rig.Recover(func() {
 			pickers := map[int]clusters.EndpointPicker{}
 			for _, pol := range cs.Picks {
+				if pol < 0 {
+					op := resyncOp(cs.Setup[0], -1-pol)
+					w.SetUp(op.Up)
+					if err := w.SyncX(op.Servers, op.Policies, op.Extra); err != nil {
+						syncErr = err.Error()
+						return
+					}
+					events = append(events, map[string]interface{}{"sync": op})
+					continue
+				}
 				p := pickers[pol]
 				if p == nil {
 					var err error
@@ -253,6 +327,7 @@ func runCase(c *rig.Ctx, cs Case, record bool, inf *info) bool {
 				}
 				us, out := pick(p)
 				uss = append(uss, us)
+				events = append(events, us)
 				outs = append(outs, out)
 			}
 		})
@@ -263,8 +338,11 @@ func runCase(c *rig.Ctx, cs Case, record bool, inf *info) bool {
 	if panicMsg != "" {
 		return fail("judge", "c14.panic", "Pop panicked: "+panicMsg, nil, nil)
 	}
-	if uss == nil {
-		uss, outs = [][]string{}, []*lib.OutJ{}
+	if syncErr != "" {
+		return fail("diff", "c14.sync-error", "a Sync inside the window failed: "+syncErr, nil, nil)
+	}
+	if outs == nil {
+		outs = []*lib.OutJ{}
 	}
 	for i, o := range outs {
 		if strings.HasPrefix(o.Err, "other:") || strings.HasPrefix(o.Err, "status:") {
@@ -273,7 +351,7 @@ func runCase(c *rig.Ctx, cs Case, record bool, inf *info) bool {
 	}
 	_, lbAfter, serr := w.Snapshot()
 	var m reply
-	if err := c.Model("C14.run", map[string]interface{}{"setup": cs.Setup, "lb": lbModel, "uss": uss, "impl": outs}, &m); err != nil {
+	if err := c.Model("C14.run", map[string]interface{}{"setup": cs.Setup, "lb": lbModel, "events": events, "impl": outs}, &m); err != nil {
 		return fail("diff", "c14.model-error", "model error "+err.Error(), nil, nil)
 	}
 	// judge: the counting statements on the implementation's results
@@ -420,6 +498,7 @@ func genCase(c *rig.Ctx, conc bool) Case {
 	}
 	if conc {
 		cs.Kind = "conc"
+		cs.Resync = r.Intn(3) == 0
 		cs.G = 2 + r.Intn(31)
 		cs.M = 1 + r.Intn(min(nmax, 400))
 		switch r.Intn(4) {
@@ -436,11 +515,31 @@ func genCase(c *rig.Ctx, conc bool) Case {
 	n := 1 + r.Intn(nmax)
 	mixed := r.Intn(10) < 3
 	one := r.Intn(3)
+	// Syncs that leave the servers alone, arriving between the picks: after every 1..u-1 picks (fewer picks than ready
+	// endpoints between two Syncs), or sparsely, or never
+	gap := 0
+	switch r.Intn(5) {
+	case 0, 1:
+		gap = 1 + r.Intn(max(u-1, 1))
+	case 2:
+		gap = 1 + r.Intn(20)
+	}
+	since := 0
 	for i := 0; i < n; i++ {
 		if mixed {
 			cs.Picks = append(cs.Picks, r.Intn(3))
 		} else {
 			cs.Picks = append(cs.Picks, one)
+		}
+		since++
+		if gap > 0 && since >= gap {
+			since = 0
+			if r.Intn(4) != 0 || gap > 6 {
+				cs.Picks = append(cs.Picks, -1-r.Intn(resyncVariants))
+			}
+			if r.Intn(3) == 0 {
+				gap = 1 + r.Intn(max(u-1, 1))
+			}
 		}
 	}
 	return cs
@@ -531,7 +630,7 @@ func main() {
 			var inf info
 			ok := runCase(c, cs, false, &inf)
 			picks += inf.n
-			c.Case(rig.Canon(cs), inf.applicable, fmt.Sprintf("%s,k=%d,orders=%s", cs.Kind, inf.maxK, ordersBucket(inf.maxOrders)), func() interface{} { return readable(cs) })
+			c.Case(rig.Canon(cs), inf.applicable, fmt.Sprintf("%s%s,k=%d,orders=%s", cs.Kind, resyncBucket(cs), inf.maxK, ordersBucket(inf.maxOrders)), func() interface{} { return readable(cs) })
 			c.Trace()
 			if !ok {
 				// a failure: from now on look (for a bounded time) for an input on which the property itself fails
@@ -556,6 +655,21 @@ func main() {
 		}
 		c.SetExtra("picks", picks)
 	})
+}
+
+func resyncBucket(cs Case) string {
+	if cs.Kind == "conc" {
+		if cs.Resync {
+			return "+syncs"
+		}
+		return ""
+	}
+	for _, p := range cs.Picks {
+		if p < 0 {
+			return "+syncs"
+		}
+	}
+	return ""
 }
 
 func ordersBucket(d int) string {
